@@ -15,7 +15,7 @@ import struct
 from ..core import hx, unhx, parallel_map
 
 DRIVERS = ["drv_edits"]
-GENERATED = ["AlignCosts"]
+GENERATED = ["AlignCosts", "HunkFlush"]
 
 REGEXES = [r"\w+", r".", r"\S+", r"[a-z]+|\d+"]
 EXTRA_REGEXES = [r"b*", r"\w"]          # empty matches; single-character tokens
@@ -589,6 +589,7 @@ def run(ctx, rep):
     rep.exhaustive = dict(strings="len<=%d" % ctx.n(3, 4), token_sequences="len<=%d" % ctx.n(3, 4))
     run_cases(ctx, rep, cases)
     end_to_end(ctx, rep)
+    end_to_end_hunks(ctx, rep)
 
 
 CORPUS = [
@@ -611,6 +612,8 @@ def replay(ctx, rep, obj):
     load_costs()
     case = obj.get("case") or {}
     case = {k: v for k, v in case.items() if k not in ("got", "stderr")}
+    if case.get("op") == "e2e-hunk":
+        return end_to_end_hunks(ctx, rep, [([(k, t) for k, t in case["seq"]], case["max"], case["buf"])])
     if case.get("op") == "e2e":
         body = "".join("-" + l + "\n" for l in case["minus"]) + "".join("+" + l + "\n" for l in case["plus"])
         diff = "diff --git a/f b/f\n--- a/f\n+++ b/f\n@@ -1,%d +1,%d @@\n" % (len(case["minus"]), len(case["plus"])) + body
@@ -756,3 +759,164 @@ def end_to_end(ctx, rep, jobs=None):
             if [k for k, _ in mp] != want or [k for k, _ in pp] != want:
                 rep.violation("e2e:distance-one-not-positional",
                               "with max-line-distance >= 1 the displayed pairs are not (i, i)", replay)
+
+
+# --------------------------------------------------------------------------- end to end: subhunk formation
+
+def hunk_job(rng, k):
+    """One hunk given as [(kind, text)], kind in '-', '+', ' ': families with '+' directly followed by '-'
+    (similar texts), alternating '+ - + -', the same around context lines, and random sequences."""
+    base = e2e_line(rng)
+
+    def near(s):
+        toks = re.findall(r"\w+|\W", s)
+        for _ in range(8):
+            t = re.sub(r"[\r\n\t​́]", "", "".join(mutate_tokens(rng, toks)))
+            if t.strip() and t[0] not in "-+\\" and t != s:
+                return t
+        return s + " x"
+    fam = k % 6
+    if fam == 0:      # context, '+', '-' (similar), context
+        seq = [(" ", e2e_line(rng)), ("+", base), ("-", near(base)), (" ", e2e_line(rng))]
+        if rng.random() < 0.5:
+            seq = seq[1:]          # directly after the hunk header
+    elif fam == 1:    # alternating + - + -
+        seq = []
+        for _ in range(rng.randint(2, 4)):
+            seq += [("+", near(base)), ("-", near(base))]
+    elif fam == 2:    # alternating - + - +
+        seq = []
+        for _ in range(rng.randint(2, 4)):
+            seq += [("-", near(base)), ("+", near(base))]
+    elif fam == 3:    # '+' run, then '-' run, then '+' run
+        seq = [("+", near(base)) for _ in range(rng.randint(1, 3))] + \
+              [("-", near(base)) for _ in range(rng.randint(1, 3))] + \
+              [("+", near(base)) for _ in range(rng.randint(0, 3))]
+    elif fam == 4:    # context lines between similar lines
+        seq = [("-", base), (" ", e2e_line(rng)), ("+", near(base)), ("-", near(base)), (" ", e2e_line(rng)), ("+", near(base))]
+    else:
+        seq = [(rng.choice("-+ -+"), near(base) if rng.random() < 0.8 else e2e_line(rng)) for _ in range(rng.randint(1, 9))]
+    mx = rng.choice(["0.6", "1.0", "0.3", "0.6"])
+    buf = rng.choice([32, 32, 32, 1, 2])
+    return seq, mx, buf
+
+
+def hunk_diff(seq):
+    a = sum(1 for k, _ in seq if k in "- ")
+    b = sum(1 for k, _ in seq if k in "+ ")
+    return "diff --git a/f b/f\n--- a/f\n+++ b/f\n@@ -1,%d +1,%d @@\n" % (a, b) + "".join(k + t + "\n" for k, t in seq)
+
+
+def end_to_end_hunks(ctx, rep, jobs=None):
+    """Subhunk formation on the real binary: which lines get paired and in which order rows appear,
+    against (1) the model's blocks (`edits.subhunks`) + the hooked `infer_edits` per block, and
+    (2) the statement itself: a pair is a removed line followed, within one run of changed lines and
+    with no added->removed boundary between them, by an added line; rows appear in input order."""
+    rng = ctx.rng
+    if jobs is None:
+        jobs = [hunk_job(rng, k) for k in range(ctx.n(180, 6000))]
+    M, ME, MN = BG["minus"], BG["minus_emph"], BG["minus_non_emph"]
+    P, PE, PN, WE, Z = BG["plus"], BG["plus_emph"], BG["plus_non_emph"], BG["ws_error"], BG["zero"]
+
+    def one(job):
+        seq, mx, buf = job
+        return ctx.run_delta(E2E_ARGS + ["--max-line-distance", mx, "--line-buffer-size", str(buf)],
+                             hunk_diff(seq).encode())
+    outs = parallel_map(one, jobs)
+    # model prediction: blocks, then the hooked infer_edits per block
+    mdl = ctx.model("drv_edits") if ctx.drivers_ok else None
+    kindch = {"-": "m", "+": "p", " ": "z"}
+    blocks_ans = mdl.ask([f"edits.subhunks {buf} " + "".join(kindch[k] for k, _ in seq) for seq, mx, buf in jobs]) if mdl else []
+    infer_reqs = []
+    parsed_blocks = []
+    for (seq, mx, buf), ans in zip(jobs, blocks_ans):
+        blocks = []
+        if ans.startswith("ok"):
+            body = ans[3:]
+            for blk in (body.split(";") if body else []):
+                ms, _, ps = blk.partition(":")
+                blocks.append(([int(x) for x in ms.split(",") if x], [int(x) for x in ps.split(",") if x]))
+        parsed_blocks.append(blocks)
+        for ms, ps in blocks:
+            parts = [f"edits.infer {hx(chr(92) + 'w+')} {mx} 0.0 {D} {I}", str(len(ms))]
+            for i in ms:
+                parts += [hx(seq[i][1] + "\n"), str(ND), "L;"]
+            parts.append(str(len(ps)))
+            for i in ps:
+                parts += [hx(seq[i][1] + "\n"), str(NI), "L;"]
+            infer_reqs.append(" ".join(parts))
+    infer_ans = ask_parallel(ctx.hook, infer_reqs)
+    it = iter(infer_ans)
+    for (seq, mx, buf), (rc, out, err), blocks in zip(jobs, outs, parsed_blocks if mdl else [None] * len(jobs)):
+        replay = dict(op="e2e-hunk", seq=[[k, t] for k, t in seq], max=mx, buf=buf)
+        if rc != 0:
+            rep.violation("e2e:exit-status", f"delta exited with {rc}",
+                          dict(replay, stderr=err.decode("utf-8", "replace")[-300:]))
+            if blocks:
+                for _ in blocks:
+                    next(it)
+            continue
+        rows = []
+        for r in (decode_row(x) for x in out.decode("utf-8", "replace").split("\n")):
+            bgs = {bg for bg, _ in r if bg is not None}
+            if bgs & {M, ME, MN}:
+                rows.append(("-", "".join(ch for bg, ch in r if bg in (M, ME, MN)), bool(bgs & {ME, MN}), r))
+            elif bgs & {P, PE, PN, WE}:
+                rows.append(("+", "".join(ch for bg, ch in r if bg in (P, PE, PN, WE)), bool(bgs & {PE, PN}), r))
+            elif Z in bgs:
+                rows.append((" ", "".join(ch for bg, ch in r if bg == Z), False, r))
+        decoded = sorted((k, t) for k, t, _, _ in rows) == sorted(seq) and \
+            not any(k == "+" and all(bg == WE for bg, _ in r if bg is not None) for k, _, _, r in rows)
+        npairs = sum(1 for k, _, pd, _ in rows if k == "-" and pd)
+        plus_then_minus = any(a[0] == "+" and b[0] == "-" for a, b in zip(seq, seq[1:]))
+        rep.case(key=("e2e-hunk", mx, buf, tuple(seq)), nontrivial=plus_then_minus and npairs > 0,
+                 sample=dict(replay, pairs=npairs) if plus_then_minus and npairs else None)
+        rep.count("e2e-hunk:" + ("decoded" if decoded else "not-decoded"))
+        rep.count("e2e-hunk:plus-then-minus" if plus_then_minus else "e2e-hunk:ordinary")
+        # --- correspondence with the model's blocks + hooked infer_edits
+        if blocks is not None:
+            units = [(i, [(" ", seq[i][1], False)]) for i, (k, _) in enumerate(seq) if k == " "]
+            okpred = True
+            for ms, ps in blocks:
+                ans = next(it)
+                if not ans.startswith("ok"):
+                    okpred = False
+                    continue
+                al = parse_kv(ans)["A"]
+                pm, pp = set(), set()
+                for e in (al.split(",") if al else []):
+                    a, b = e.split(":")
+                    if a != "-" and b != "-":
+                        pm.add(int(a)); pp.add(int(b))
+                units.append((max(ms + ps), [("-", seq[i][1], k in pm) for k, i in enumerate(ms)] +
+                              [("+", seq[i][1], k in pp) for k, i in enumerate(ps)]))
+            if decoded and okpred:
+                pred = [x for _, u in sorted(units, key=lambda t: t[0]) for x in u]
+                got = [(k, t, pd) for k, t, pd, _ in rows]
+                rep.corr_case("e2e.subhunks", pred == got, dict(case=replay, model=pred, impl=got))
+        if not decoded:
+            continue
+        # --- the statement itself, on what is displayed
+        pos, nxt = [], {"-": 0, "+": 0, " ": 0}
+        where = {k: [i for i, (kk, _) in enumerate(seq) if kk == k] for k in "-+ "}
+        for k, t, pd, r in rows:       # the j-th displayed row of a kind is the j-th input line of that kind
+            pos.append(where[k][nxt[k]]); nxt[k] += 1
+        if pos != sorted(pos):
+            rep.violation("e2e:rows-out-of-input-order", "hunk lines are not displayed in input order", replay)
+        pm = [(p_, r) for p_, (k, t, pd, r) in zip(pos, rows) if k == "-" and pd]
+        ppl = [(p_, r) for p_, (k, t, pd, r) in zip(pos, rows) if k == "+" and pd]
+        if len(pm) != len(ppl):
+            rep.violation("e2e:pair-count", "different numbers of paired removed and added lines are displayed", replay)
+            continue
+        for (m_, ra), (p_, rb) in zip(pm, ppl):
+            kinds = [k for k, _ in seq]
+            between = kinds[min(m_, p_):max(m_, p_) + 1]
+            if not (m_ < p_) or " " in between or any(a == "+" and b == "-" for a, b in zip(between, between[1:])):
+                rep.violation("e2e:pair-across-subhunk-boundary",
+                              "a removed and an added line are paired although the added line comes first, or a context "
+                              "line / an added->removed boundary lies between them", dict(replay, pair=[m_, p_]))
+            ka = "".join(ch for bg, ch in ra if bg == MN)
+            kb = "".join(ch for bg, ch in rb if bg == PN)
+            if rtrim_ws(ka) != rtrim_ws(kb):
+                rep.violation("e2e:unsound-emphasis",
+                              "displayed non-emphasised text differs between the two lines of a pair", replay)
